@@ -16,7 +16,7 @@ use std::panic::{catch_unwind, AssertUnwindSafe};
 pub const GW_MAC: [u8; 6] = [2, 0, 0, 0, 0, 0xfe];
 pub const GW_EXT: [u8; 8] = [2, 0, 0, 0, 0, 0, 0, 0xfe];
 
-pub const CAP_NAMES: [&str; 7] = ["default", "ipv4-tx-off", "udp-tx-off", "tcp-tx-off", "icmpv4-tx-off", "icmpv6-tx-off", "all-tx-off"];
+pub const CAP_NAMES: [&str; 9] = ["default", "ipv4-tx-off", "udp-tx-off", "tcp-tx-off", "icmpv4-tx-off", "icmpv6-tx-off", "all-tx-off", "all-rx-off", "all-off"];
 
 pub fn caps_of(i: usize) -> ChecksumCapabilities {
     let mut c = ChecksumCapabilities::default();
@@ -32,6 +32,21 @@ pub fn caps_of(i: usize) -> ChecksumCapabilities {
             c.tcp = Checksum::Rx;
             c.icmpv4 = Checksum::Rx;
             c.icmpv6 = Checksum::Rx;
+        }
+        // asymmetric the other way round: computed on transmission, not verified on reception
+        7 => {
+            c.ipv4 = Checksum::Tx;
+            c.udp = Checksum::Tx;
+            c.tcp = Checksum::Tx;
+            c.icmpv4 = Checksum::Tx;
+            c.icmpv6 = Checksum::Tx;
+        }
+        8 => {
+            c.ipv4 = Checksum::None;
+            c.udp = Checksum::None;
+            c.tcp = Checksum::None;
+            c.icmpv4 = Checksum::None;
+            c.icmpv6 = Checksum::None;
         }
         _ => {}
     }
